@@ -4,4 +4,4 @@ From Coq Require Import NArith ZArith List.
 From CppcmsV Require Import C10.Defs.
 Definition keep_types : (N * Z * nat) := (0%N, 0%Z, 0%nat).
 Extraction "c10m.ml" keep_types init_world run step truth hdr_parse hdr_bytes enc_fetch enc_store enc_rise enc_clear
-  enc_stats dec_fetch mkset server_of hash_raw srv_handle.
+  enc_stats dec_fetch mkset server_of hash_raw srv_handle restart.
